@@ -244,8 +244,11 @@ class Flavour:
             return float(v)
         return ["?", repr(v)[:40]]
 
-    def digits(self, item, R):
-        """digits of one field of the observation handed to P"""
+    def digits(self, item, R, built=False):
+        """digits of one field of the observation handed to P; `built`: the field is the Coords that __getObs made of
+        the first two / three values (three digits, also when its coordinates happen to be those of a state)"""
+        if built and isinstance(item, self.base):
+            return self.digits(item.E, R)[:1] + self.digits(item.N, R)[:1] + self.digits(item.U, R)[:1]
         lab = self.label(item)
         if lab is not None:
             return [lab % R]
@@ -261,11 +264,12 @@ class Flavour:
             pass
         return [0]
 
-    def code(self, y, R, YD):
+    def code(self, y, R, YD, posfirst=False):
+        """`posfirst`: the call is in mode 1, 2, 3 or 4, the first field is the position made by __getObs"""
         fields = y if isinstance(y, list) else [y]
         ds = []
-        for f in fields:
-            ds += self.digits(f, R)
+        for i, f in enumerate(fields):
+            ds += self.digits(f, R, built=(posfirst and i == 0))
         return sum(d * R ** i for i, d in enumerate(ds)) % YD
 
 
@@ -321,8 +325,8 @@ def valid(case):
                 if st["h"] != no or any(st[k] >= nm for k in ("mS", "mQ", "mP")):
                     return False
                 no += 1
-            elif op in ("log", "setS", "setQ", "setP"):
-                if st["h"] >= no or (op != "log" and st["m"] >= nm):
+            elif op in ("log", "stat", "setS", "setQ", "setP"):
+                if st["h"] >= no or (op not in ("log", "stat") and st["m"] >= nm):
                     return False
             elif op == "est":
                 if st["h"] >= no or st["t"] >= nt:
@@ -359,6 +363,16 @@ class Runner:
         if case["sflav"] == "trackpos":
             pool = [self.ENU(*st_coords("trackpos", l)) for l in range(case["L"])]
         return Flavour(case["sflav"], self.ENU, self.cstate, pool)
+
+    @staticmethod
+    def boolform(case):
+        f = case.get("boolform", "bool")
+        if f == "int":
+            return int
+        if f == "npbool":
+            import numpy as np
+            return np.bool_
+        return bool
 
     def yval(self, case, c):
         return float(c) if case.get("yflav") == "float" else c
@@ -438,9 +452,10 @@ class Runner:
                 a = fl.state_label(s)
                 if a is None or not (0 <= k < N):
                     raise LookupError("P called with %r at epoch %r" % (s, k))
-                return PT[k][a][fl.code(y, R, YD)]
+                return PT[k][a][fl.code(y, R, YD, cur.get("mode", 0) in (1, 2, 3, 4))]
             return S, Q, P
         funs = [functions(m) for m in case["models"]]
+        B = self.boolform(case)      # how the session writes its flags: True / 1 / numpy.bool_(True)
 
         for st in case["steps"]:
             op = st["op"]
@@ -450,14 +465,16 @@ class Runner:
                     h = self.dyn.HMM()
                     h.setStates(S); h.setTransitionModel(Q); h.setObservationModel(P)
                     if st["log"] or st.get("always_setlog"):
-                        h.setLog(st["log"])
+                        h.setLog(B(st["log"]))
                 elif st.get("via") == "ctor-pos":
-                    h = self.dyn.HMM(S, Q, P, st["log"])
+                    h = self.dyn.HMM(S, Q, P, B(st["log"]))
                 else:
-                    h = self.dyn.HMM(S, Q, P, log=st["log"], stationarity=bool(st.get("stat")))
+                    h = self.dyn.HMM(S, Q, P, log=B(st["log"]), stationarity=B(bool(st.get("stat"))))
                 objs.append(h)
             elif op == "log":
-                objs[st["h"]].setLog(st["log"])
+                objs[st["h"]].setLog(B(st["log"]))
+            elif op == "stat":          # declared, never read by estimate()
+                objs[st["h"]].setStationarity(B(st["b"]))
             elif op == "setS":
                 objs[st["h"]].setStates(funs[st["m"]][0])
             elif op == "setQ":
@@ -494,11 +511,12 @@ class Runner:
                 obsarg = st["obs"][0] if (len(st["obs"]) == 1 and st.get("obs_as_str")) else list(st["obs"])
                 kw = {}
                 if st.get("logarg") is not None:
-                    kw["log"] = st["logarg"]
+                    kw["log"] = B(st["logarg"])
                 if st.get("mode", 0) != 0 or st.get("mode_explicit"):
                     kw["mode"] = st.get("mode", 0)
                 kw["verbose"] = st.get("verbose", 0)
                 cur["track"] = tr
+                cur["mode"] = st.get("mode", 0)
                 cur["rets"] = []
                 status = "ok"
                 detail = ""
@@ -544,6 +562,8 @@ def request(case, fbits, tok_list):
         op = st["op"]
         if op == "new":
             steps.append("new:%d:%d:%d:%d:%d" % (st["h"], int(st["log"]), st["mS"], st["mQ"], st["mP"]))
+        elif op == "stat":
+            pass                       # HMM.stationarity is not read on this path: not part of the model
         elif op == "log":
             steps.append("log:%d:%d" % (st["h"], int(st["log"])))
         elif op in ("setS", "setQ", "setP"):
@@ -910,6 +930,9 @@ def gen_session(rng, big=False):
     YD = rng.choice([1, 2, 3, 3, 4, 6])
     sflav = rng.choice(SFLAVS + ["trackpos"])
     case = {"kind": "sess", "N": N, "L": L, "R": R, "YD": YD, "sflav": sflav, "yflav": rng.choice(["int", "float"])}
+    r = rng.random()
+    if r < 0.12:
+        case["boolform"] = "int" if r < 0.07 else "npbool"
     models = []
     for _ in range(rng.choice([1, 2, 2, 3])):
         kind = rng.choice(["lik3", "lik8", "lik8", "likw", "likw", "likw", "lik01", "logint", "logdy", "logpm"])
@@ -965,6 +988,8 @@ def gen_session(rng, big=False):
                     b = rng.random() < 0.5
                     steps.append({"op": "log", "h": h, "log": b})
                     objs[h].update(actual=b, declared=b, sticky=False)
+                    if rng.random() < 0.3:
+                        steps.append({"op": "stat", "h": h, "b": rng.random() < 0.5})
                 elif r < 0.62:
                     cand = sorted(tfeats[cur_t])
                     if cand:
@@ -1067,12 +1092,25 @@ def shrink(case):
         c = dict(case, steps=steps[:i] + steps[i + 1:])
         if valid(c):
             yield c
-    # drop a model that is not referenced
+    # drop a model that is not referenced (the later ones are renumbered)
     used = set()
     for s in steps:
         for k in ("mS", "mQ", "mP", "m"):
             if k in s:
                 used.add(s[k])
+    for mi in range(len(case["models"]) - 1, -1, -1):
+        if mi not in used and len(case["models"]) > 1:
+            c = copy.deepcopy(case)
+            del c["models"][mi]
+            for s in c["steps"]:
+                for k in ("mS", "mQ", "mP", "m"):
+                    if k in s and s[k] > mi:
+                        s[k] -= 1
+            if valid(c):
+                yield c
+            break
+    if "boolform" in case:
+        yield {k: v for k, v in case.items() if k != "boolform"}
     # drop the last epoch
     N = case["N"]
     if N > 1:
